@@ -38,6 +38,10 @@ var c19Templates = []c19Template{
 	{"child-merge", map[string]any{"zz": map[string]any{"$merge": "c"}}, true},
 	{"hidden", map[string]any{"$match": nil, "h": map[string]any{"$output": false, "t": 1}, "u": "$merge:h.t"}, false},
 	{"cross-doc", map[string]any{"x": map[string]any{"$merge": map[string]any{"$match": map[string]any{"a": 1}, "$path": "c"}}}, false},
+	{"nested-list-merge", map[string]any{"groups": []any{[]any{map[string]any{"name": "web", "$merge": "defaults"}}}, "defaults": map[string]any{"cpu": 1}}, false},
+	{"match-changes-c", map[string]any{"$match": map[string]any{"a": 1}, "c": map[string]any{"y": 9}}, false},
+	{"child-changes-defaults", map[string]any{"defaults": map[string]any{"cpu": 8}}, true},
+	{"cross-doc-replace-list", map[string]any{"y": map[string]any{"$replace": []any{map[string]any{"a": 1}, "c"}}, "l": []any{[]any{map[string]any{"$merge": map[string]any{"$match": map[string]any{"a": 1}, "$path": "c"}, "z": 0}}}}, false},
 }
 
 // operations: 0..3 = merge template k of the chosen set, 4 = MergeFileLayers,
@@ -412,13 +416,13 @@ func buildC19(tier string) *core.Plan {
 			}
 		}
 	} else {
-		sets = [][]int{{0, 1, 6, 9}, {2, 3, 4, 10}, {5, 7, 8, 11}, {0, 1, 2, 8}}
+		sets = [][]int{{0, 1, 6, 9}, {2, 3, 4, 10}, {5, 7, 8, 11}, {0, 1, 2, 8}, {0, 11, 13, 9}, {12, 14, 1, 6}, {0, 15, 13, 14}}
 	}
 	statelessSets := sets
 	if thorough {
-		statelessSets = [][]int{{0, 1, 6, 9}, {2, 3, 4, 10}, {5, 7, 8, 11}, {0, 1, 2, 8}, {0, 6, 9, 11}, {1, 4, 8, 10}}
+		statelessSets = [][]int{{0, 1, 6, 9}, {2, 3, 4, 10}, {5, 7, 8, 11}, {0, 1, 2, 8}, {0, 6, 9, 11}, {1, 4, 8, 10}, {0, 11, 13, 9}, {12, 14, 1, 6}, {0, 15, 13, 14}}
 	} else {
-		statelessSets = sets[:2]
+		statelessSets = [][]int{sets[0], sets[1], sets[4], sets[5]}
 	}
 
 	// stateless: case = (set, first two ops); inner = all continuations
